@@ -20,6 +20,7 @@ CONSTANTS
   SMIN = 3
   SMAX = 9
   XSKIP = FALSE
+  CLRWAIT = TRUE
 INVARIANTS Linearizable NoDeadlock ResizeSafe QuiescentOK ReadersNeverBlock IterWeak GhostOK
 PROPERTY NeverShrinks
 VIEW view
